@@ -3,6 +3,9 @@ from __future__ import annotations
 
 import json
 
+import sys
+
+import c09_adopt
 import c09_reopen
 import core
 import treeops as T
@@ -52,7 +55,14 @@ def save_signature(w, d, r):
     if r[0] == "raises":
         here = (psd.pil_mode, psd.depth)
         origins = [w.origin.get(x, here) for x in layers_of(w, d) if isinstance(w.objs[x], T.PixelLayer)]
-        if r[1] == "save" and any(o is None for o in origins) and here != ("RGB", 8):
+        full = (psd.pil_mode, psd.depth, psd.version)
+        foreign_planes = [x for x in layers_of(w, d) if x != T.BOGUS and not isinstance(w.objs[x], (T.PixelLayer, T.Group))
+                          and w.layout.get(x) not in (None, full)
+                          and any(c.data for c in getattr(w.objs[x], "_channels", None) or [])]
+        if r[1] == "save" and foreign_planes:
+            # only PixelLayer has a _convert: shape / type / smart object layers keep the planes of their old document
+            sig = "C09/save-raises/adopted-non-raster-layer-keeps-planes"
+        elif r[1] == "save" and any(o is None for o in origins) and (here != ("RGB", 8) or psd.version != 1):
             # PixelLayer.frompil(image, None): the library warns that such a layer cannot be converted
             sig = "C09/save-raises/documentless-pixel-layer-adopted"
         elif r[1] == "save" and any(o is not None and o[1] != psd.depth for o in origins):
@@ -158,9 +168,12 @@ def run(ctx: core.Run):
         recipe = recipes[k % len(recipes)]
         ops = T.random_walk(recipe, rng, rng.randrange(3, max_len + 1), p_unguarded=0.03)
         traces.append(T.run_history(recipe, ops, check_fresh=False))
-    T.compare_with_model(ctx, traces, what="C09")
-    T.coverage(ctx, traces)
-    T.report(ctx, traces, props=("C09",))
+    # cross-document adoption (PSD / PSB x depth x mode, fixture and API layers with every compression): pixels of the
+    # adopted layers, save + reopen of both documents; boundary worlds (mixed per-plane compression) first
+    adopt_traces, adopt_other = c09_adopt.run_block(ctx, sys.modules[__name__])
+    T.compare_with_model(ctx, traces + adopt_traces, what="C09")
+    T.coverage(ctx, traces + adopt_traces + adopt_other)
+    T.report(ctx, traces + adopt_traces + adopt_other, props=("C09",))
     # save + reopen: after the corpus histories, after every walk, after a sample of the exhaustive histories
     fails = []
     chosen = traces[:n_corpus] + traces[n_exh:] + rng.sample(traces[n_corpus:n_exh], min(300 if ctx.quick else 3000, n_exh - n_corpus))
@@ -206,10 +219,23 @@ def run(ctx: core.Run):
                 "<= %d operations over %d initial trees (mode x depth matrix, two-document worlds, API-built and fixture "
                 "documents with artboards, fixtures). Save + reopen "
                 "after %d histories: names, kinds, nesting, order, visibility, opacity, blend mode, clipping, rectangle, "
-                "channel payloads." % (depth, n_walks, max_len, len(recipes), len(chosen)))
+                "channel payloads. Cross-document adoption: %d two-document worlds (source: small fixtures with raster "
+                "layers - masks, effects blocks, planes with mixed compression - and API-built documents L / RGB / CMYK x 8 / "
+                "16 / 32 bit x PSD / PSB whose layers use raw / RLE / zip / zip-with-prediction planes or another compression "
+                "for the transparency plane; target: the other file version with the same mode and depth, the same version, "
+                "another depth / mode), %d histories (every adopting operation on raster layers and on groups above them, both "
+                "directions, there and back, random walks): every listed raster layer decodes, shows the pixels it showed "
+                "before when mode and depth are unchanged (8-bit precision, one unit of rounding per conversion), and both "
+                "documents reopen with the same tree and, plane for plane, the pixels they have in memory."
+                % (depth, n_walks, max_len, len(recipes), len(chosen), ctx.extra.get("adopt_worlds", 0),
+                   ctx.extra.get("adopt_histories", 0)))
     ctx.notes += [
         "save_reopen (DESIGN C09) is evaluated on the real code only (oracle: save -> open -> compare); its Lean "
         "composition with the parse / flatten model (C08) and the record codec (C01) is pending",
+        "pixels of adopted layers (harness/c09_adopt.py) are an oracle on the real code only: PixelLayer._convert is opaque "
+        "for the model; the conversion renders the layer, which burns opacity / masks / effects / clipped layers / hidden "
+        "state / the ICC transform into the pixels (known findings C09/adopt-pixels/rendered-into-pixels/<feature>) - the "
+        "'same pixels' statement is therefore checked at full strength only for plain raster layers",
         "history_refines is stated for the accepted operations of a guarded history; refusals are no-ops by "
         "refused_refines; the guard (inserted layers are detached) is only needed to keep the invariant, a single step "
         "refines without it",
@@ -223,6 +249,8 @@ def run(ctx: core.Run):
 def replay(ctx, data):
     T.replay_print(data)
     inp = data.get("input") or {}
+    if inp.get("recipe", [None])[0] == "adopt":
+        return c09_adopt.replay(ctx, data, sys.modules[__name__])
     if "document" in inp:
         t = T.run_history(tuple(inp["recipe"]), T.ops_from_json(inp["ops"]), stop_on_problem=False)
         r = T.save_reopen(t.world.objs[inp["document"]])
